@@ -1270,3 +1270,8 @@ func (p *F) CheapProgress(l *Loop, ph *ssa.Phi, dir int64) bool {
 
 // AtomValue returns the SSA value an atom stands for (nil for synthetic atoms).
 func (p *F) AtomValue(a string) ssa.Value { return p.atoms[a] }
+
+// LenIncrement: len(v) - len(base) for an append chain rooted at the header phi base (ok=false if v is not such a chain).
+func (p *F) LenIncrement(l *Loop, v ssa.Value, base *ssa.Phi) (int64, bool) {
+	return p.lenIncrement(l, v, base, 0)
+}
